@@ -146,12 +146,13 @@ static void check_frame(const Job &j, const Bytes &f, unsigned var)
     // the real receiver, fed byte by byte; buffer exactly n+2 bytes (n payload + crc + the cap-1 rule) or a bit larger
     int cap = (int)n + 2 + ((var & 1) ? (int)(var >> 4) % 7 : 0);
     vf::Exact buf(nullptr, (size_t)cap, (var >> 1) % 3, (var & 8) != 0);
-    Rx fresh(j.k);
+    Rx fresh(j.k, (int)((var >> 9) % NSRC)); // where the context given to the constructor lives: see gs_rx.h
     Rx *rxp = &fresh;
     if (g_pool && g_rxmode == RM_REUSED && j.k < NCODEC)
         rxp = &g_pool->fixed[j.k];
     else if (g_pool && g_rxmode == RM_REBOUND && j.k != LEGACY && j.k < NCODEC)
     {
+        g_pool->morph.src = (int)((var >> 9) % NSRC);
         g_pool->morph.rebind(j.k);
         rxp = &g_pool->morph;
     }
@@ -166,6 +167,15 @@ static void check_frame(const Job &j, const Bytes &f, unsigned var)
         else
             VF_OK("receiver object re-assigned to another alphabet between packets");
     }
+    if (j.k != LEGACY)
+        switch (rx.src)
+        {
+        case SRC_OWN: VF_OK("receiver constructed from a context that outlives it"); break;
+        case SRC_TEMPORARY: VF_OK("receiver constructed from a temporary context"); break;
+        case SRC_FACTORY_LOCAL: VF_OK("receiver constructed from a local of a factory that has returned"); break;
+        case SRC_HEAP_FREED: VF_OK("receiver constructed from a heap context freed before use"); break;
+        default: VF_OK("receiver constructed from a variable re-assigned to another alphabet afterwards"); break;
+        }
     for (size_t i = 0; i < f.size(); i++)
     {
         int st = rx.put(f[i]);
@@ -733,6 +743,9 @@ extern "C" void vf_setup()
           "encode with a new context object in the same storage", "encode with a by-value temporary context",
           "receiver object reused for the next packet with another buffer", "receiver object re-assigned to another alphabet between packets",
           "custom-alphabet: round trip over a caller-defined gstuff_context (extra dimension)", "custom-alphabet: START == STOP variant",
-          "custom-alphabet: START != STOP variant", "custom-alphabet: 0xFF as a marker", "status:custom:NEWPACKAGE", "status:v1:NEWPACKAGE", "status:v0:NEWPACKAGE", "status:legacy:NEWPACKAGE"})
+          "custom-alphabet: START != STOP variant", "custom-alphabet: 0xFF as a marker", "status:custom:NEWPACKAGE",
+          "receiver constructed from a context that outlives it", "receiver constructed from a temporary context",
+          "receiver constructed from a local of a factory that has returned", "receiver constructed from a heap context freed before use",
+          "receiver constructed from a variable re-assigned to another alphabet afterwards", "status:v1:NEWPACKAGE", "status:v0:NEWPACKAGE", "status:legacy:NEWPACKAGE"})
         vf::require(c);
 }
